@@ -97,3 +97,38 @@ theorem C14_code (field value : Nat) (hfield : field < numFields) (hv : value < 
 end
 
 end O1722.Refine
+
+/-! ### non-vacuity: the hypotheses are met -/
+namespace O1722.Refine
+
+/-- Read-only data holding `tbl` at address `tb` (three octets per row). -/
+def romOf (tb : Nat) (tbl : List Desc) : Nat → Byte := fun a =>
+  if tb ≤ a then
+    match tbl[(a - tb) / 3]? with
+    | some d => Fin.ofNat 256 (if (a - tb) % 3 = 0 then d.quadlet else if (a - tb) % 3 = 1 then d.offset else d.bits)
+    | none => 0
+  else 0
+
+theorem romOf_table (tb : Nat) (tbl : List Desc) (h0 : tb ≠ 0) (hb : tb + 3 * tbl.length < 18446744073709551616)
+    (hsmall : ∀ d ∈ tbl, d.quadlet < 256 ∧ d.offset < 256 ∧ d.bits < 256) : RomTable (romOf tb tbl) tb tbl := by
+  refine ⟨?_, hb, h0⟩
+  intro i hi
+  obtain ⟨h1, h2, h3⟩ := hsmall _ (List.getElem_mem hi)
+  have e0 : (tb + 3 * i - tb) / 3 = i ∧ (tb + 3 * i - tb) % 3 = 0 := by omega
+  have e1 : (tb + 3 * i + 1 - tb) / 3 = i ∧ (tb + 3 * i + 1 - tb) % 3 = 1 := by omega
+  have e2 : (tb + 3 * i + 2 - tb) / 3 = i ∧ (tb + 3 * i + 2 - tb) % 3 = 2 := by omega
+  refine ⟨?_, ?_, ?_⟩
+  · simp only [romOf, if_pos (show tb ≤ tb + 3 * i by omega), e0.1, e0.2, List.getElem?_eq_getElem hi]
+    simp [Fin.ofNat, Nat.mod_eq_of_lt h1]
+  · simp only [romOf, if_pos (show tb ≤ tb + 3 * i + 1 by omega), e1.1, e1.2, List.getElem?_eq_getElem hi]
+    simp [Fin.ofNat, Nat.mod_eq_of_lt h2]
+  · simp only [romOf, if_pos (show tb ≤ tb + 3 * i + 2 by omega), e2.1, e2.2, List.getElem?_eq_getElem hi]
+    simp [Fin.ofNat, Nat.mod_eq_of_lt h3]
+
+/-- A concrete table (the 48-bit GPC message id at offset 16, a 64-bit timestamp, a 1-bit flag)
+    satisfies every hypothesis of `C01_code` / `C02_code`. -/
+example : RomTable (romOf 4096 [⟨0, 16, 48⟩, ⟨1, 0, 64⟩, ⟨0, 31, 1⟩]) 4096 [⟨0, 16, 48⟩, ⟨1, 0, 64⟩, ⟨0, 31, 1⟩]
+    ∧ (∀ d ∈ [(⟨0, 16, 48⟩ : Desc), ⟨1, 0, 64⟩, ⟨0, 31, 1⟩], d.Valid) :=
+  ⟨romOf_table _ _ (by decide) (by decide) (by decide), by decide⟩
+
+end O1722.Refine
